@@ -265,6 +265,45 @@ func path(v ssa.Value, d int) string {
 	case *ssa.Lookup:
 		return path(x.X, d+1) + "[" + path(x.Index, d+1) + "]"
 	case *ssa.Extract:
+		// a result that every return of a transparent helper forwards unchanged (`return resp, "..."` on
+		// all paths) is the forwarded value, rendered in the caller's frame
+		if call, ok := x.Tuple.(*ssa.Call); ok && d < 20 && len(inlineEnv) < 3 {
+			if h := transparentCallee(call); h != nil && !forwardBusy[h] {
+				forwardBusy[h] = true
+				env := map[*ssa.Parameter]string{}
+				for i, p := range h.Params {
+					if i < len(call.Call.Args) {
+						env[p] = path(call.Call.Args[i], d+1)
+					}
+				}
+				inlineEnv = append(inlineEnv, env)
+				same, n := "", 0
+				for _, r := range Returns(h) {
+					vals := ResultValues(r)
+					if x.Index >= len(vals) {
+						same = ""
+						break
+					}
+					// only plain forwarded values: a load of a local, a parameter, a field of those
+					rp := path(vals[x.Index], d+1)
+					if strings.Contains(rp, "(") || strings.HasPrefix(rp, "c:") || strings.HasPrefix(rp, "phi") {
+						same = ""
+						break
+					}
+					if n > 0 && rp != same {
+						same = ""
+						break
+					}
+					same = rp
+					n++
+				}
+				inlineEnv = inlineEnv[:len(inlineEnv)-1]
+				delete(forwardBusy, h)
+				if same != "" && n > 0 {
+					return same
+				}
+			}
+		}
 		return path(x.Tuple, d+1) + "#" + fmt.Sprint(x.Index)
 	case *ssa.ChangeType:
 		return path(x.X, d+1)
@@ -606,6 +645,9 @@ func callPath(c *ssa.CallCommon, d int) string {
 // OpaqueHelpers names the repository's own one-line helpers that rules refer to by name
 // (they are vocabulary, not incidental structure) and that are therefore never rendered inline.
 var OpaqueHelpers = map[string]bool{"eventClean": true, "(*Coordinate).rawDistanceTo": true}
+
+// forwardBusy guards the forwarded-result rendering of Extract against recursion.
+var forwardBusy = map[*ssa.Function]bool{}
 
 // inlineEnv is the stack of parameter bindings of the helpers being rendered.
 var inlineEnv []map[*ssa.Parameter]string
@@ -1211,6 +1253,127 @@ type reacher struct {
 	callee map[*ssa.Function]*calleeResult
 	upSeen map[ssa.Instruction]bool
 	retVal []map[bool]bool // per active callee exploration: bool results seen on uncut returns
+	// path-sensitive treatment of a transparent helper with one call site: the helper's body is explored
+	// once, and the caller is continued once per return the helper can reach, with the call's results
+	// bound to that return's operands (so `ok, err := helper(); if !ok { return err }` is followed with
+	// the values that return really produced)
+	bind    []binding
+	retList [][]*ssa.Return
+}
+
+type binding struct {
+	call *ssa.Call
+	ret  *ssa.Return
+}
+
+// activeBind is the binding stack of the reach query whose target callback is running (see Bound).
+var activeBind []binding
+
+// Bound resolves a result of a transparent helper call to the operand of the helper's return on the
+// path being explored; any other value (or no such path information) is returned unchanged. Target
+// callbacks of reach queries use it to judge `return err` where err came out of a helper.
+func Bound(v ssa.Value) ssa.Value {
+	return boundIn(activeBind, v)
+}
+
+func boundIn(bs []binding, v ssa.Value) ssa.Value {
+	for d := 0; d < 4; d++ {
+		idx := -1
+		var call *ssa.Call
+		switch x := v.(type) {
+		case *ssa.Extract:
+			call, _ = x.Tuple.(*ssa.Call)
+			idx = x.Index
+		case *ssa.Call:
+			call, idx = x, 0
+		}
+		if call == nil {
+			return v
+		}
+		found := false
+		for k := len(bs) - 1; k >= 0; k-- {
+			if bs[k].call == call {
+				vals := ResultValues(bs[k].ret)
+				if idx < len(vals) {
+					v = vals[idx]
+					found = true
+				}
+				break
+			}
+		}
+		if !found {
+			return v
+		}
+	}
+	return v
+}
+
+// boundBranch decides a branch whose condition is (a comparison of) a bound helper result with a
+// constant: +1 the condition is true on this path, -1 false, 0 unknown.
+func boundBranch(bs []binding, cond ssa.Value) int {
+	if len(bs) == 0 {
+		return 0
+	}
+	neg := false
+	for {
+		u, ok := cond.(*ssa.UnOp)
+		if !ok || u.Op != token.NOT {
+			break
+		}
+		cond, neg = u.X, !neg
+	}
+	res := 0
+	switch x := cond.(type) {
+	case *ssa.Extract, *ssa.Call:
+		v := boundIn(bs, cond)
+		if v == cond {
+			return 0
+		}
+		if IsConstBool(v, true) {
+			res = 1
+		} else if IsConstBool(v, false) {
+			res = -1
+		}
+	case *ssa.BinOp:
+		if x.Op != token.EQL && x.Op != token.NEQ {
+			return 0
+		}
+		a, b := x.X, x.Y
+		ba, bb := boundIn(bs, a), boundIn(bs, b)
+		if ba == a && bb == b {
+			return 0 // nothing bound here
+		}
+		eq := 0 // +1 equal, -1 different
+		switch {
+		case IsNilConst(bb) && IsNilConst(ba), isEmptyString(bb) && isEmptyString(ba):
+			eq = 1
+		case IsNilConst(bb) && definitelyNonNil(ba), IsNilConst(ba) && definitelyNonNil(bb):
+			eq = -1
+		case isEmptyString(bb) && definitelyNonEmpty(ba), isEmptyString(ba) && definitelyNonEmpty(bb):
+			eq = -1
+		default:
+			ca, okA := ba.(*ssa.Const)
+			cb, okB := bb.(*ssa.Const)
+			if okA && okB && ca.Value != nil && cb.Value != nil {
+				if constant.Compare(ca.Value, token.EQL, cb.Value) {
+					eq = 1
+				} else {
+					eq = -1
+				}
+			}
+		}
+		if eq == 0 {
+			return 0
+		}
+		res = eq
+		if x.Op == token.NEQ {
+			res = -eq
+		}
+	}
+	if neg {
+		res = -res
+	}
+	return res
 }
 
 type calleeResult struct {
@@ -1257,6 +1420,9 @@ func (r *reacher) run(b0 *ssa.BasicBlock, i0 int) (ssa.Instruction, bool) {
 				// a helper's return is not an exit of the function under analysis
 				if ret.Block().Comment != "recover" {
 					exits = true
+					if n := len(r.retList); n > 0 {
+						r.retList[n-1] = append(r.retList[n-1], ret)
+					}
 					if n := len(r.retVal); n > 0 && len(ret.Results) == 1 {
 						v := ResultValues(ret)[0]
 						if ph := phiReturn(s.b); ph != nil && s.i == 0 {
@@ -1282,6 +1448,7 @@ func (r *reacher) run(b0 *ssa.BasicBlock, i0 int) (ssa.Instruction, bool) {
 				}
 				continue
 			}
+			activeBind = r.bind
 			if r.target(in) {
 				skip := false
 				if ret, ok := in.(*ssa.Return); ok && r.cut != nil && r.cut.RetTrue && len(ret.Results) == 1 {
@@ -1300,6 +1467,35 @@ func (r *reacher) run(b0 *ssa.BasicBlock, i0 int) (ssa.Instruction, bool) {
 				}
 			}
 			if r.cut != nil && r.cut.Instrs != nil && r.cut.Instrs(in) {
+				stopped = true
+				break
+			}
+			if h := transparentCallee(in); h != nil && len(helperSites[h]) == 1 && len(r.bind) < 3 && r.callee[h] == nil && h.Signature.Results().Len() >= 1 {
+				// one call site: explore the body once, then continue the caller once per reachable return
+				call := in.(*ssa.Call)
+				r.callee[h] = &calleeResult{busy: true, exits: true, canTrue: true, canFalse: true}
+				r.retList = append(r.retList, nil)
+				r.retVal = append(r.retVal, map[bool]bool{})
+				f, _ := r.run(h.Blocks[0], 0)
+				rets := r.retList[len(r.retList)-1]
+				r.retList = r.retList[:len(r.retList)-1]
+				r.retVal = r.retVal[:len(r.retVal)-1]
+				delete(r.callee, h)
+				if f != nil {
+					return f, exits
+				}
+				for _, ret := range rets {
+					if ret.Parent() != h {
+						continue
+					}
+					r.bind = append(r.bind, binding{call, ret})
+					f, ex := r.run(s.b, i+1)
+					r.bind = r.bind[:len(r.bind)-1]
+					if f != nil {
+						return f, exits || ex
+					}
+					exits = exits || ex
+				}
 				stopped = true
 				break
 			}
@@ -1343,6 +1539,11 @@ func (r *reacher) run(b0 *ssa.BasicBlock, i0 int) (ssa.Instruction, bool) {
 			}
 			if r.infeasible(s.b, k) {
 				continue
+			}
+			if iff, ok := s.b.Instrs[len(s.b.Instrs)-1].(*ssa.If); ok && len(r.bind) > 0 {
+				if d := boundBranch(r.bind, iff.Cond); (d > 0 && k == 1) || (d < 0 && k == 0) {
+					continue // this path's helper results decide the branch the other way
+				}
 			}
 			if pv != nil {
 				// the branch tests a boolean materialised on the way in: resolve it for this way
@@ -1399,6 +1600,10 @@ func (r *reacher) after(from ssa.Instruction) ssa.Instruction {
 		return nil
 	}
 	r.upSeen[from] = true
+	return r.afterFrom(from)
+}
+
+func (r *reacher) afterFrom(from ssa.Instruction) ssa.Instruction {
 	b := from.Block()
 	idx := -1
 	for i, in := range b.Instrs {
@@ -1407,17 +1612,42 @@ func (r *reacher) after(from ssa.Instruction) ssa.Instruction {
 			break
 		}
 	}
+	g := from.Parent()
+	inHelper := g != r.root && Transparent(g)
+	if inHelper {
+		r.retList = append(r.retList, nil)
+	}
 	found, exits := r.run(b, idx+1)
+	var rets []*ssa.Return
+	if inHelper {
+		rets = r.retList[len(r.retList)-1]
+		r.retList = r.retList[:len(r.retList)-1]
+	}
 	if found != nil {
 		return found
 	}
-	g := from.Parent()
-	if exits && g != r.root && Transparent(g) {
+	if exits && inHelper {
 		for _, cs := range helperSites[g] {
-			if inDeep(r.root, cs.Parent()) {
-				if f := r.after(cs); f != nil {
-					return f
+			if !inDeep(r.root, cs.Parent()) {
+				continue
+			}
+			if len(helperSites[g]) == 1 && len(rets) > 0 && len(r.bind) < 3 {
+				// continue after the only call site once per return this start can reach, results bound
+				for _, ret := range rets {
+					if ret.Parent() != g {
+						continue
+					}
+					r.bind = append(r.bind, binding{cs, ret})
+					f := r.afterFrom(cs)
+					r.bind = r.bind[:len(r.bind)-1]
+					if f != nil {
+						return f
+					}
 				}
+				continue
+			}
+			if f := r.after(cs); f != nil {
+				return f
 			}
 		}
 	}
